@@ -9,6 +9,8 @@ read cannot be recorded at all:
  R3 "some path" = union: tracked ids are merged with the union strategy and every access
     flag is joined with `||`
  R4 extraction keeps every accessed register parameter (no filter on the register)
+How: R2 by may-flow from each slot to the read-flag setter (through helpers), receiver traced to the returned state, and
+by specialisation per slot (for Store.value the four cases plain register x exact stack offset).
 """
 from .lib import slots as SL
 from .lib import sym as S
